@@ -268,6 +268,47 @@ func c08Rules(p *Program, r *Report) {
 			}
 		}
 	}
+	// Snappy: any guard comparing the declared decoded length with a multiple of the compressed
+	// length must allow Snappy's maximum expansion (a 3-byte copy yields 64 bytes: > 21:1)
+	for _, fn := range p.ModuleFuncs() {
+		pk := fn.Package()
+		if pk == nil || shortPkg(pk.Pkg) != "compression/snappy" {
+			continue
+		}
+		n := 0
+		for _, b := range fn.Blocks {
+			for _, ins := range b.Instrs {
+				bo, ok := ins.(*ssa.BinOp)
+				if !ok {
+					continue
+				}
+				switch bo.Op {
+				case token.GTR, token.GEQ, token.LSS, token.LEQ:
+				default:
+					continue
+				}
+				for _, pair := range [][2]ssa.Value{{bo.X, bo.Y}, {bo.Y, bo.X}} {
+					ob, k := mulForm(pair[1])
+					_, isLen := lenOf(ob)
+					if lc, ok := ob.(*ssa.Call); ok && !isLen {
+						if f := lc.Call.StaticCallee(); f != nil && f.Name() == "Len" {
+							isLen = true
+						}
+					}
+					if !isLen || k.Cmp(big.NewInt(1)) <= 0 {
+						continue
+					}
+					n++
+					gkey := fmt.Sprintf("%s ratio-guard#%d", fnKey(fn), n)
+					if k.Cmp(big.NewInt(22)) >= 0 {
+						r.OKf("ratio-guard", gkey, bo.Pos(), "decoded length compared with %s x the compressed length", k)
+					} else {
+						r.Fail("ratio-guard", gkey, bo.Pos(), "a decoded length above %s x the compressed length is rejected, but Snappy expands up to 21.33x (64 bytes from a 3-byte copy): legitimate highly compressible data is refused (integer division truncates 64/3 to 21)", k)
+					}
+				}
+			}
+		}
+	}
 	// Snappy: sizing is delegated to snappy.Decode(nil, src) - recorded for the evidence
 	r.Extra["snappy"] = "snappy.Decode(nil, src) sizes its own output; not checked"
 }
